@@ -1887,7 +1887,11 @@ class BreakAction(Action, HasDefaultDebugInfo):
         return True
 
     def get_target_override_targets(self):
-        return [self.refers_to.end_state]
+        targets = [self.refers_to.end_state]
+        # the actions that replace this break may themselves redirect (e.g. a break of an outer loop placed right after this loop)
+        for action in self.refers_to.after_break_actions:
+            targets.extend(x for x in action.get_target_override_targets() if x not in targets)
+        return targets
 
     def get_target_override_mode(self):
         return ActionOverrideMode.ALWAYS_GOTO_OTHER
